@@ -1,5 +1,6 @@
 """Exhaustive path enumeration for small functions (bounded, fails loudly)."""
 from .build import AnalysisBroken
+from . import canon
 from .cfg import Typestate, simulate
 
 
@@ -16,6 +17,8 @@ class PathTS(Typestate):
         self.max_repeat = max_repeat
         self.paths = set()
         self.cut = 0
+        self.want_loads = bool(getattr(getattr(select, "__self__", None), "want_loads", False))
+        self.canon = bool(getattr(getattr(select, "__self__", None), "canon", False))
 
     def _push(self, st, tok):
         if tok is None:
@@ -48,7 +51,13 @@ class PathTS(Typestate):
         if nid is not None and "e" in F.nodes[nid]:
             rnode = F.nodes[nid]["e"]
             rv = ctx.value(rnode)
-        self.paths.add((st, kind, rv, F.render(rnode) if rnode is not None else None))
+        if rnode is None:
+            rtxt = None
+        elif self.canon:
+            rtxt = canon.expr(F, rnode, env=ctx.aliases())
+        else:
+            rtxt = F.render(rnode)
+        self.paths.add((st, kind, rv, rtxt))
 
 
 def enumerate_paths(F, select, edge_select=None, max_len=60, max_repeat=2, entry_consts=None, start=None):
